@@ -20,7 +20,19 @@ MODEL_VIEW = "model_view"
 THEOREMS = ["C18_loads", "C18_to_bytes", "C18_to_bytes_total", "C18_bound_quirk_harmless", "C18_tok_items",
             "C18_tok_functional", "C18_roundtrip", "C18_roundtrip_items", "C18_single", "C18_no_bracket_joker_free",
             "C18_to_text_total", "C18_length", "C18_scope", "C18_program", "C18_oracle_tokenise", "C18_oracle_rt_table",
-            "C18_nonvacuous_encode", "C18_nonvacuous_roundtrip", "C18_nonvacuous_single", "C18_note_max_bytes_quirk"]
+            "C18_nonvacuous_encode", "C18_nonvacuous_roundtrip", "C18_nonvacuous_single", "C18_note_max_bytes_quirk",
+            "C18F_match_deterministic", "C18F_search_sound", "C18F_search_complete", "C18F_match_unique_groups",
+            "C18F_match_exists_iff", "C18F_match_shape", "C18F_line_match", "C18F_line_roundtrip",
+            "C18F_line_roundtrip_no_newline", "C18F_unescape_escape", "C18F_file_roundtrip", "C18F_file_roundtrip_no_final_newline",
+            "C18F_disk_roundtrip", "C18F_entries_roundtrip", "C18F_dec_digits", "C18F_include_factors",
+            "C18F_split_lines_concat", "C18F_file_to_bytes", "C18F_file_lines_to_bytes", "C18F_file_roundtrip_codec",
+            "C18F_reject_not_hex", "C18F_reject_blank", "C18F_odd_hex", "C18F_odd_hex_line",
+            "C18F_hex_pairs_parity", "C18F_ignore_letter", "C18F_ignore_too_long", "C18F_bad_line_rejects_file",
+            "C18F_empty_file", "C18F_no_entries", "C18F_no_fuel", "C18F_nonvacuous_line",
+            "C18F_nonvacuous_file", "C18F_nonvacuous_backtrack"]
+PROOF_HEADER = "From A816 Require Import Properties.C18 Properties.C18File."
+# model-tie modules whose correspondence is part of this property's check (parts of the model its theorems rest on)
+TIES = ['TBLFILE']
 RULE = ("generated tables (1-30 lines, single/multi-character texts with overlapping prefixes, 1-3-byte codes, duplicate "
         "texts and codes, NN:k= ignore entries, noise lines) written as .tbl files and loaded by script.Table; strings over "
         "the table alphabet plus [0xNN] escapes (also above 0xFF), unknown and non-ASCII characters: Table.to_bytes(s), "
@@ -32,8 +44,12 @@ PROVED_NOTE = ("proved for all tables and strings (induction): Model to_bytes = 
                "unique, non-empty, prefix-free codes and no ignore entries; exact round trip for single-character tables; "
                "scope rule (innermost enclosing block that loaded a table before the text); pc_after advance = emitted length; "
                "the oracle's boolean tokeniser is equivalent to the inductive specification. Correspondence-only: that "
-               "script/__init__.py, TableNode/TextNode and Scope.get_table compute what Model/Table.v computes; the .tbl line "
-               "regex (modelled by its parsed result).")
+               "script/__init__.py, TableNode/TextNode and Scope.get_table compute what the model computes. "
+               "FILE LOADING (Properties/C18File.v, model tie TBLFILE): the .tbl line regex is modelled with its backtracking "
+               "semantics and proved deterministic (= a direct matcher); a rendered well-formed line/file loads exactly the "
+               "entries it denotes (any hex case, ignore field, blanks, escaped newlines, CRLF, missing final newline), so every "
+               "theorem about table_of_entries speaks about file texts; odd hex count / non-decimal ignore / empty file are "
+               "rejected exactly as the code does.")
 EXHAUSTIVE = {"quick": False, "thorough": False}
 MANIFEST = {
     "text": ("Greedy longest-match tokenisation with [0xNN] escapes and skipped unknown characters is specified inductively "
@@ -42,8 +58,8 @@ MANIFEST = {
              "codes (exactly, for single-character tables); the scope rule and the layout length are proved on the model. "
              "The model is tied to script.Table and to .table/.text in assembled programs by a correspondence run on generated "
              "table files, strings and nested-scope programs, with an independent tokeniser as oracle on the implementation's output."),
-    "note": ("Trusted: Coq kernel + vm_compute; correspondence harness; CPython str/bytes/dict/re semantics as modelled; the "
-             ".tbl line regex is modelled by its parsed result; hand-written Spec/TableSpec.v. No axioms."),
+    "note": ("Trusted: Coq kernel + vm_compute; correspondence harness; CPython str/bytes/dict/re semantics as modelled "
+             "(the .tbl line regex included, tied by the TBLFILE correspondence on generated file texts); hand-written Spec/TableSpec.v. No axioms."),
     "technique": "Coq proof over a Gallina model + differential correspondence with vm_compute",
 }
 CASE_TIMEOUT = 20
